@@ -13,8 +13,8 @@ BUILD=fail; /tmp/mutkit/mk.sh $WT /tmp/confmlr-$$ >/tmp/confbuild-$$.log 2>&1 &&
 TESTS=$(nice /tmp/mutkit/tests.sh $WT 2>&1 | head -1)
 [ -x /tmp/mutkit/mlr-base ] || /tmp/mutkit/mk.sh /repo /tmp/mutkit/mlr-base
 DEMO=$OUT/demo.sh; chmod +x $DEMO
-(cd /tmp && MLRRC=__none__ timeout 900 sh $DEMO /tmp/mutkit/mlr-base >/dev/null 2>&1); RB=$?
-(cd /tmp && MLRRC=__none__ timeout 900 sh $DEMO /tmp/confmlr-$$ >/dev/null 2>&1); RM=$?
+(cd /tmp && MLRRC=__none__ timeout 900 $DEMO /tmp/mutkit/mlr-base >/dev/null 2>&1); RB=$?
+(cd /tmp && MLRRC=__none__ timeout 900 $DEMO /tmp/confmlr-$$ >/dev/null 2>&1); RM=$?
 python3 - "$OUT" "$PROP" "$APPLY" "$BUILD" "$TESTS" "$RB" "$RM" <<'PY'
 import json,sys
 out,prop,apply_,build,tests,rb,rm=sys.argv[1:]
